@@ -130,7 +130,9 @@ func scenarioEnum(c *vrun.Ctx) {
 		}
 	}
 	rec(nil)
-	for _, s := range []string{"9223372036854775807B", "9223372036854775808B", "9007199254740993K", "99999999999T", "8388608T", "8388607T", "18446744073709551616B", "１Ｋ", "1k", "1KB", "1 K", "+1K", "1.5K", "0x10K", "1K\n"} {
+	for _, s := range []string{"9223372036854775807B", "9223372036854775808B", "9007199254740993K", "99999999999T", "8388608T", "8388607T", "18446744073709551616B", "１Ｋ", "1k", "1KB", "1 K", "+1K", "1.5K", "0x10K", "1K\n",
+		// digits outside ASCII (Unicode category Nd) are not digits of the documented form
+		"٣K", "１０G", "1٠G", "१K", "٠B", "1１M", "߁T", "𝟏K", "²K", "½K", "ⅧK"} {
 		check(s)
 	}
 	c.Res.Bounds["parse_alphabet"] = string(sigma)
